@@ -18,8 +18,15 @@ def run_real(inputs, keep=False, budget=None, outdir_missing=False):
     -> dict(exit, reports [str], dir {stem: bytes}, stdout, stderr)"""
     d = tempfile.mkdtemp(prefix='rsbat')
     try:
-        od = os.path.join(d, 'out', 'nope') if outdir_missing else os.path.join(d, 'out')
-        os.makedirs(os.path.join(d, 'out'))
+        # outdir_missing: False | True / 'missing' (a directory that does not exist) | 'deep' (two missing levels) |
+        # 'under-file' (an ancestor is a regular file) | 'under-proc' (a place where nothing can be created)
+        od = os.path.join(d, 'out')
+        os.makedirs(od)
+        if outdir_missing in (True, 'missing'): od = os.path.join(d, 'out', 'nope')
+        elif outdir_missing == 'deep': od = os.path.join(d, 'out', 'nope', 'deeper')
+        elif outdir_missing == 'under-file':
+            open(os.path.join(d, 'out', 'blk'), 'wb').write(b'x'); od = os.path.join(d, 'out', 'blk', 'sub')
+        elif outdir_missing == 'under-proc': od = '/proc/nope/sub'
         paths = []
         for k, i in enumerate(inputs):
             sub = os.path.join(d, 'in%d' % k); os.mkdir(sub)
